@@ -235,3 +235,61 @@ package model
 //@ ifacemethod BiasListener.Merge
 //@   ensures forall q string :: coversId(self, params, q) ==> coversId(self, result, q)
 //@   ensures forall q string :: accepts(self, addition, q) ==> coversId(self, result, q)
+
+// ---- normalization.go
+
+//@ func GetScaleRatio
+//@   property C18 C19
+//@   nopanic
+//@   ensures [ratio] result == ((currentRange.Max - currentRange.Min) != 0.0 ? (target.Max - target.Min) / (currentRange.Max - currentRange.Min) : 0.0)
+//@ func GetNormalScaleRatio
+//@   property C19
+//@   ensures [ratio] result == ((currentRange.Max - currentRange.Min) != 0.0 ? 1.0 / (currentRange.Max - currentRange.Min) : 0.0)
+//@ func ValuesRangeWithGroundZero
+//@   property C18
+//@   ensures [ground_zero] fresh(result) && result.Min == 0.0
+//@   ensures [declared] criterion.ValuesRange != nil ==> result.Max == max(max(abs(criterion.ValuesRange.Min), abs(criterion.ValuesRange.Max)), criterion.ValuesRange.Max - criterion.ValuesRange.Min)
+//@   ensures [nonneg] result.Max >= 0.0
+
+//@ spec rescaled(c Criterion, v real, cur utils.ValueRange, scale real, target utils.ValueRange) real =
+//@      c.Type == Cost ? (cur.Max - v) * scale + target.Min : (v - cur.Min) * scale + target.Min
+//@ func scaleCriterion
+//@   property C18
+//@   panics_iff [missing] !(c.Id in a.Criteria)
+//@   ensures [rescaled] result == rescaled(*c, a.Criteria[c.Id], *currentRange, scale, *target)
+
+//@ func RescaleCriterion
+//@   property C18
+//@   ensures [fresh] fresh(result) && result != nil
+//@   ensures [all] forall k int :: 0 <= k && k < len(*alternatives) ==> (*alternatives)[k].Id in result
+//@   ensures [only] forall q string :: q in result ==> exists k int :: 0 <= k && k < len(*alternatives) && (*alternatives)[k].Id == q
+//@   ensures [declared_range_values] c.ValuesRange != nil ==> forall q string :: q in result ==> exists k int :: 0 <= k && k < len(*alternatives) && (*alternatives)[k].Id == q
+//@             && result[q] == rescaled(*c, (*alternatives)[k].Criteria[c.Id], *c.ValuesRange,
+//@                  ((c.ValuesRange.Max - c.ValuesRange.Min) != 0.0 ? (target.Max - target.Min) / (c.ValuesRange.Max - c.ValuesRange.Min) : 0.0), *target)
+//@   loop 1 invariant [ctx] fresh(scaledCriterionValues) && scaledCriterionValues != nil && currentRange != nil
+//@             && scale == ((currentRange.Max - currentRange.Min) != 0.0 ? (target.Max - target.Min) / (currentRange.Max - currentRange.Min) : 0.0)
+//@             && (c.ValuesRange != nil ==> currentRange == c.ValuesRange)
+//@   loop 1 invariant [all] forall k int :: 0 <= k && k < iter ==> (*alternatives)[k].Id in scaledCriterionValues
+//@   loop 1 invariant [values] forall q string :: q in scaledCriterionValues ==> exists k int :: 0 <= k && k < iter && (*alternatives)[k].Id == q
+//@             && scaledCriterionValues[q] == rescaled(*c, (*alternatives)[k].Criteria[c.Id], *currentRange, scale, *target)
+
+// ---- adding a criterion to alternatives
+
+//@ pred extendedBy(nw AlternativeWithCriteria, od AlternativeWithCriteria, name string) =
+//@      nw.Id == od.Id && name in nw.Criteria
+//@   && (forall q string :: q != name ==> ((q in nw.Criteria <==> q in od.Criteria) && (q in od.Criteria ==> nw.Criteria[q] == od.Criteria[q])))
+
+//@ func (*AlternativeWithCriteria).WithCriterion
+//@   property C07 C18
+//@   panics_iff [exists] name in a.Criteria
+//@   ensures [extended] fresh(result) && fresh(result.Criteria) && extendedBy(*result, *a, name) && result.Criteria[name] == value
+//@   loop 1 invariant [copied] forall k string :: seen(k) ==> (k in criteria && criteria[k] == a.Criteria[k])
+//@   loop 1 invariant [only] forall k string :: k in criteria ==> seen(k)
+//@   loop 1 invariant [ctx] fresh(criteria) && criteria != nil && !(name in a.Criteria)
+
+//@ func AddCriterionToAlternatives
+//@   property C07 C18
+//@   ensures [shape] fresh(result) && fresh(*result) && len(*result) == len(*alternatives)
+//@   ensures [extended] forall i int :: 0 <= i && i < len(*alternatives) ==> extendedBy((*result)[i], (*alternatives)[i], newCriterion.Id) && fresh((*result)[i].Criteria)
+//@   loop 1 invariant [ctx] fresh(newAlts) && len(newAlts) == len(*alternatives)
+//@   loop 1 invariant [extended] forall i int :: 0 <= i && i < iter ==> extendedBy(newAlts[i], (*alternatives)[i], newCriterion.Id) && fresh(newAlts[i].Criteria)
